@@ -74,6 +74,8 @@ def array_type_obj(at):
         return jax.Array
     if k == "duck":
         return usercats.DuckArr
+    if k == "duckq":
+        return usercats.Backend.Tensor
     if k == "union":
         return Union[array_type_obj(at[1]), array_type_obj(at[2])]
     if k == "nested":
@@ -106,6 +108,7 @@ def probes():
         for d in ("float32", "int8", "uint16"):
             for s in ((3,), (3, 4), ()):
                 out.append(usercats.DuckArr(s, d))
+                out.append(usercats.Backend.Tensor(s, d))
                 out.append(jnp.zeros(s, dtype=d))
         out += [None, 3, "s", (1, 2)]
         _probes = out
@@ -212,6 +215,30 @@ def check_case(ctx, desc, routes, cross=None):
             n = len(probes())
             raise Violation("meaning-changed", dict(desc, route=route),
                             f"{route}: reconstructed {describe(desc)} differs on {probe_label(i)}: original {v0[i]}, reconstructed {v1[i]}")
+        if desc.get("loaded_on_generator") and route.startswith("pickle"):
+            # the loaded copy is put to use as the return annotation of an old-style generator function; loading the same bytes once more
+            # gives an annotation of its own that means what the original means
+            import warnings
+
+            def _gen2():
+                yield None
+
+            _gen2.__annotations__ = {"return": back}
+            with warnings.catch_warnings():
+                warnings.simplefilter("ignore")
+                try:
+                    jaxtyped(typechecker=None)(_gen2)
+                except Exception:
+                    pass
+            try:
+                v2 = vector(roundtrip(ann, route))
+            except BaseException as e:  # noqa: BLE001
+                raise Violation("roundtrip-raised", dict(desc, route=route), f"second {route} of {describe(desc)} raised {type(e).__name__}: {e}")
+            if v2 != v0:
+                i = next(i for i, (x, y) in enumerate(zip(v0, v2)) if x != y)
+                raise Violation("meaning-changed", dict(desc, route=route),
+                                f"{route}, loaded a second time after the first loaded copy had become the return annotation of an old-style generator function: reconstructed {describe(desc)} differs on {probe_label(i)}: original {v0[i]}, reconstructed {v2[i]}")
+            ctx.classes["loaded-twice-with-first-copy-on-a-generator"] += 1
         ctx.note([desc, route], narrowed or sentinel, classes=[f"route-{route}", f"at-{desc['at'][0]}"] + (["narrowed-nested"] if narrowed else []) + (["sentinel-axis"] if sentinel else []),
                  sample={"annotation": describe(desc), "route": route})
     if cross is not None:
@@ -331,7 +358,7 @@ def run_cross(ctx, cross):
 
 @st.composite
 def array_type_desc(draw, depth=0):
-    k = draw(st.sampled_from(["np", "np", "nested", "any", "jax", "duck", "union", "nested"] if depth == 0 else (["np", "nested", "any", "jax", "duck"] if depth == 1 else ["np", "any", "jax", "duck"])))
+    k = draw(st.sampled_from(["np", "np", "nested", "any", "jax", "duck", "union", "nested", "duckq"] if depth == 0 else (["np", "nested", "any", "jax", "duck", "duckq"] if depth == 1 else ["np", "any", "jax", "duck"])))
     if k == "union":
         a, b = draw(st.permutations(["np", "jax", "duck"]))[:2]
         return ["union", [a], [b]]
@@ -382,7 +409,7 @@ def c20_desc(draw):
     if draw(st.integers(0, 5)) == 0:
         toks = [dl.Token("*", "empty", None) if t.is_multi() else t for t in toks]
     return {"cat": draw(st.sampled_from(["Shaped", "Float", "Num", "Inexact"] + CATS + USER)), "at": draw(array_type_desc()), "spec": dl.spec_spelling(toks),
-            "twin_generator": draw(st.sampled_from([False, True, False, False]))}
+            "twin_generator": draw(st.sampled_from([False, True, False, False])), "loaded_on_generator": draw(st.sampled_from([False, True, False]))}
 
 
 def run(ctx):
